@@ -348,6 +348,34 @@ impl PhysicalPlanner {
         }
     }
 
+    /// Label the output of a derived table / CTE reference with the names its
+    /// logical schema declares (`alias.column`). A no-op when the physical
+    /// names already agree or the shapes do not line up.
+    fn qualify_alias_output(
+        input: Arc<dyn PhysicalOperator>,
+        node: &crate::planner::SubqueryAliasNode,
+    ) -> Arc<dyn PhysicalOperator> {
+        let want: Vec<String> = node
+            .schema
+            .fields()
+            .iter()
+            .map(|f| f.qualified_name())
+            .collect();
+        let have = input.schema();
+        if want.len() != have.fields().len() {
+            return input;
+        }
+        if have
+            .fields()
+            .iter()
+            .zip(want.iter())
+            .all(|(f, w)| f.name() == w)
+        {
+            return input;
+        }
+        Arc::new(crate::physical::operators::RenameExec::new(input, &want))
+    }
+
     /// Widen equi-join key pairs whose sides are integers of DIFFERENT
     /// widths to Int64 on both sides. The join's hash tables (direct-address,
     /// vectorized, raw-i64) are built from the build side's key arrays and
@@ -1849,11 +1877,13 @@ impl PhysicalPlanner {
                             batches.clone(),
                             None,
                         );
-                        return Ok(Arc::new(exec));
+                        return Ok(Self::qualify_alias_output(Arc::new(exec), node));
                     }
                 }
-                // Not cached, pass through to input
-                self.create_physical_plan_inner(&node.input)
+                // Not cached: plan the input, then give its columns the
+                // alias-qualified names the rest of the plan refers to.
+                let input = self.create_physical_plan_inner(&node.input)?;
+                Ok(Self::qualify_alias_output(input, node))
             }
 
             LogicalPlan::EmptyRelation(node) => {
